@@ -154,8 +154,17 @@ func c01Run(c *fw.Ctx) {
 	}
 	r := c.R
 	gs := compileCandidates(c, nSmall, nSmall*30, func(i int) (*gram.PGrammar, int, bool) {
-		pg := gram.RandCFG(r)
+		var pg *gram.PGrammar
+		if i%4 == 3 {
+			pg = gram.LeftRecCFG(r)
+			c.Count("leftrec_family_generated", 1)
+		} else {
+			pg = gram.RandCFG(r)
+		}
 		optv := (c.Case*nSmall + i) % 8
+		if i%4 == 3 {
+			optv = r.Intn(8)
+		}
 		pg.Opts = tableOpts(optv)
 		return pg, optv, false
 	})
